@@ -13,6 +13,7 @@ fn run_case(fam: &str, args: &[i128]) -> Vec<i128> {
         "bitmap" => bitmap::run(args),
         "grid" => grid::run(args),
         "gridrec" => grid::run_rec(args),
+        "gridnz" => grid::run_nz(args),
         "seqapi" => seqapi::run(args),
         _ => panic!("unknown family {fam}"),
     }
